@@ -266,6 +266,9 @@ pub struct Cfg {
     pub preludes: Vec<Vec<OpK>>,
     /// situations (oracle::SITUATIONS) this family exists to reach; reported when no execution does
     pub must_reach: Vec<&'static str>,
+    /// `Age` may also move the identifier counter to `live identifier + d` for these distances
+    /// (identifiers that alias a live one modulo a power of two)
+    pub age_aliases: Vec<u16>,
 }
 
 #[derive(Copy, Clone, Debug, PartialEq, Eq)]
@@ -316,6 +319,7 @@ impl Cfg {
             big_connect: false,
             preludes: Vec::new(),
             must_reach: Vec::new(),
+            age_aliases: Vec::new(),
         }
     }
     pub fn has(&self, p: &str) -> bool {
